@@ -300,6 +300,8 @@ def plan_add(w: World, op: dict) -> Plan:
             P.insert(t, p)
             if p is not None:
                 p += 1
+        if node_id is not None and len(new_tops) == 1:
+            new_tops[0].nid = node_id
         return None
 
     return Plan(OK, call=call, apply=apply, owner=owner, trigger=trigger, slots=(si,))
